@@ -229,6 +229,8 @@ type bmcSys struct {
 	verbose bool
 	objSeq  int
 	prunedHeap map[*Object]Value
+	constCells map[*term.T]bool
+	extractRound int
 }
 
 func (b *bmcSys) logf(format string, a ...interface{}) {
